@@ -3,7 +3,8 @@
 Model/Limit.lean and Model/Aggr.lean mirror a handful of constants and tests of the query methods by hand
 (get fetches a LIMIT 2 prefix and raises for more than one row, exists / first fetch LIMIT 1, first() orders an
 unordered query and switches DISTINCT off, random(n) is ORDER BY random() + [:n], a NULL SUM becomes 0 and nothing else,
-a newer order_by criterion is PREPENDED, the DELETE subquery of a grouped bulk delete keeps GROUP BY and HAVING).
+a newer order_by criterion is PREPENDED, the DELETE subquery of a grouped bulk delete keeps GROUP BY and HAVING, the
+alias-dropping short DELETE form is guarded by used_from_subquery and resolve_name marks the query that owns the name).
 This generator re-derives them from the abstract syntax tree on every run; `Props/C24.lean: C24_bridge_query_shape`
 states that they equal what the model was written against.  Anything it does not recognise makes it fail (closed).
 `regenerate(repo, lean_dir)` has the shape of py2lean.regenerate.
@@ -96,6 +97,16 @@ def analyse(repo):
     f['deleteSubqueryWhere'] = "subquery_ast.append(['WHERE'] + translator.conditions)" in text
     f['deleteSubqueryGroupBy'] = "subquery_ast.append(group_by)" in text and "group_by = ['GROUP_BY']" in text
     f['deleteSubqueryHaving'] = "subquery_ast.append(['HAVING'] + translator.having_conditions)" in text
+    # ---- the alias-dropping short form DELETE FROM T WHERE ... is only taken when no subquery refers to the query's names;
+    #      resolve_name marks the query that OWNS the name (not the direct parent of the subquery)
+    tests = [ast.unparse(n.test) for n in ast.walk(d) if isinstance(n, ast.If) and 'used_from_subquery' in ast.unparse(n.test)]
+    f['deleteShortFormGuarded'] = tests == ['not force_in and len(from_ast) == 2 and (not translator.sqlquery.used_from_subquery)']
+    rn = find_method(tr, 'SQLTranslator', 'resolve_name')
+    marks = [(ast.unparse(n.test), [ast.unparse(b) for b in n.body]) for n in ast.walk(rn) if isinstance(n, ast.If) and 'used_from_subquery' in ast.unparse(n)]
+    f['subqueryMarksOwner'] = marks == [('monad.translator is not translator', ['monad.translator.sqlquery.used_from_subquery = True'])]
+    sq = [ast.unparse(n) for n in ast.walk(tr) if isinstance(n, ast.Assign) and 'used_from_subquery' in ast.unparse(n.targets[0])]
+    assert sorted(sq) == sorted(['monad.translator.sqlquery.used_from_subquery = True', 'sqlquery.used_from_subquery = False',
+                                 'parent_sqlquery.used_from_subquery = True', 'parent_tableref.sqlquery.used_from_subquery = True']) or not f['subqueryMarksOwner'], sq
     return f
 
 
@@ -115,6 +126,7 @@ def render(f):
              '  getStop : Bound', '  getMultipleAbove : Nat', '  existsStop : Bound', '  firstStop : Bound', '  firstOrdersUnordered : Bool',
              '  firstWithoutDistinct : Bool', '  randomStop : Bound', '  randomOrder : String', '  nullSumIsZero : Bool', '  orderByPrepends : Bool',
              '  deleteSubqueryWhere : Bool', '  deleteSubqueryGroupBy : Bool', '  deleteSubqueryHaving : Bool',
+             '  deleteShortFormGuarded : Bool', '  subqueryMarksOwner : Bool',
              '  deriving DecidableEq, Repr', '',
              'def shape : Shape := {']
     def b(v): return lean_val(v).strip('()') if False else lean_val(v)
@@ -130,7 +142,9 @@ def render(f):
               '  orderByPrepends := %s,' % lean_val(f['orderByPrepends']),
               '  deleteSubqueryWhere := %s,' % lean_val(f['deleteSubqueryWhere']),
               '  deleteSubqueryGroupBy := %s,' % lean_val(f['deleteSubqueryGroupBy']),
-              '  deleteSubqueryHaving := %s }' % lean_val(f['deleteSubqueryHaving']),
+              '  deleteSubqueryHaving := %s,' % lean_val(f['deleteSubqueryHaving']),
+              '  deleteShortFormGuarded := %s,' % lean_val(f['deleteShortFormGuarded']),
+              '  subqueryMarksOwner := %s }' % lean_val(f['subqueryMarksOwner']),
               '', 'end PonyVerif.Gen.QueryShape', '']
     return '\n'.join(lines)
 
